@@ -711,7 +711,35 @@ func init() {
 	intercepts["(*net/url.URL).String"] = func(ex *Exec, fr *Frame, a []Value, s ssa.Instruction) Value {
 		p := ex.ptr(a[0])
 		sv := ex.peek(p).(*StructV)
+		if op, ok := sv.fs[1].(*Term).StrVal(); ok && op == "" {
+			// a URL assembled field by field: its text is an (injective, uninterpreted) function of the parts
+			var ut types.Type
+			if call, ok := s.(*ssa.Call); ok && len(call.Call.Args) > 0 {
+				if pt, ok := call.Call.Args[0].Type().Underlying().(*types.Pointer); ok {
+					ut = pt.Elem()
+				}
+			}
+			if ut == nil {
+				panic(ex.unsupported("net/url.URL type not found"))
+			}
+			user, pass := ex.tt.Str(""), ex.tt.Str("")
+			if up, ok := ex.fget(p, ut, "User").(*PtrV); ok && up.obj != nil {
+				ui := ex.peek(up).(*StructV)
+				user, pass = ui.fs[0].(*Term), ui.fs[1].(*Term)
+			}
+			ex.H.noteStub("net/url.URL.String on an assembled URL: uninterpreted function of scheme, user, password, host, path, query")
+			return ex.tt.UF("url_build", SString, ex.fget(p, ut, "Scheme").(*Term), user, pass, ex.fget(p, ut, "Host").(*Term), ex.fget(p, ut, "Path").(*Term), ex.fget(p, ut, "RawQuery").(*Term))
+		}
 		return ex.tt.UF("url_string", SString, sv.fs[1].(*Term))
+	}
+	intercepts["net/url.UserPassword"] = func(ex *Exec, fr *Frame, a []Value, s ssa.Instruction) Value {
+		call := s.(*ssa.Call)
+		pt := call.Call.Value.(*ssa.Function).Signature.Results().At(0).Type()
+		ut := pt.(*types.Pointer).Elem()
+		u := ex.newStruct(ut)
+		sv := ex.peek(u).(*StructV)
+		sv.fs[0], sv.fs[1], sv.fs[2] = a[0], a[1], ex.tt.Bool(true)
+		return u
 	}
 	intercepts["strings.TrimPrefix"] = func(ex *Exec, fr *Frame, a []Value, s ssa.Instruction) Value {
 		x, p := a[0].(*Term), a[1].(*Term)
@@ -873,6 +901,7 @@ type httpSent struct {
 	method, url *Term
 	body        *BytesV
 	status      *Term
+	timeout     *Term // the client's overall Timeout (ns) when the request was sent; 0 = the call may never return
 }
 
 func init() {
@@ -901,6 +930,16 @@ func init() {
 			panic(ex.unsupported("Client.Do of a request not built by http.NewRequest"))
 		}
 		sent := *ex.W.httpBuilt
+		sent.timeout = ex.tt.BV(0, 64)
+		if call, ok := s.(*ssa.Call); ok && len(call.Call.Args) > 0 {
+			if pt, ok := call.Call.Args[0].Type().Underlying().(*types.Pointer); ok {
+				if cp, ok := a[0].(*PtrV); ok && cp.obj != nil {
+					if t, ok := ex.fget(cp, pt.Elem(), "Timeout").(*Term); ok {
+						sent.timeout = ex.tt.Resize(t, 64, true)
+					}
+				}
+			}
+		}
 		ex.W.httpSent = append(ex.W.httpSent, &sent)
 		if ex.choose(2, nil, "http-transport-error") == 1 {
 			return &TupleV{vs: []Value{&PtrV{typ: rt}, ex.opaqueErr("net/http: transport error")}}
@@ -930,6 +969,7 @@ func init() {
 		}
 		return &BytesV{isNil: ex.tt.Bool(true), s: ex.tt.Str("")}
 	})
+	vx("HttpSentTimeout", func(ex *Exec, fr *Frame, a []Value, s ssa.Instruction) Value { return sentAt(ex, a[0]).timeout })
 	// -1: transport error (no response)
 	vx("HttpSentStatus", func(ex *Exec, fr *Frame, a []Value, s ssa.Instruction) Value {
 		if st := sentAt(ex, a[0]).status; st != nil {
@@ -971,6 +1011,24 @@ func init() {
 		w.sqlDBObj = ex.opaquePtr("sql.DB", nil)
 		return &TupleV{vs: []Value{w.sqlDBObj, nilErr()}}
 	}
+	for _, m := range []string{"SetMaxOpenConns", "SetMaxIdleConns", "SetConnMaxIdleTime", "SetConnMaxLifetime"} {
+		m := m
+		intercepts["(*database/sql.DB)."+m] = func(ex *Exec, fr *Frame, a []Value, s ssa.Instruction) Value {
+			if ex.W.sqlPool == nil {
+				ex.W.sqlPool = map[string]*Term{}
+			}
+			if t, ok := a[1].(*Term); ok {
+				ex.W.sqlPool[m] = ex.tt.Resize(t, 64, true)
+			}
+			return nil
+		}
+	}
+	vx("SqlPool", func(ex *Exec, fr *Frame, a []Value, s ssa.Instruction) Value {
+		if t, ok := ex.W.sqlPool[ex.str(a[0], "setting")]; ok {
+			return t
+		}
+		return ex.tt.BV(^uint64(0), 64) // -1: never set
+	})
 	vx("SqlOpens", func(ex *Exec, fr *Frame, a []Value, s ssa.Instruction) Value { return ex.tt.BV(uint64(len(ex.W.sqlOpens)), 64) })
 	vx("SqlOpenDriver", func(ex *Exec, fr *Frame, a []Value, s ssa.Instruction) Value { return ex.W.sqlOpens[ex.concreteInt(a[0], "i")][0] })
 	vx("SqlOpenDSN", func(ex *Exec, fr *Frame, a []Value, s ssa.Instruction) Value { return ex.W.sqlOpens[ex.concreteInt(a[0], "i")][1] })
@@ -1002,6 +1060,8 @@ func init() {
 		d := ex.input(name, "int64", SBV64)
 		ms := ex.input(name+".ms", "int64", SBV64)
 		ex.addPC(tt.And(tt.SLe(tt.BV(uint64(lo), 64), ms), tt.SLe(ms, tt.BV(uint64(hi), 64))))
+		// the duration itself (nanoseconds) is opaque apart from its sign: zero exactly when it has zero milliseconds
+		ex.addPC(tt.And(tt.SLe(tt.BV(0, 64), d), tt.Eq(tt.Eq(d, tt.BV(0, 64)), tt.Eq(ms, tt.BV(0, 64)))))
 		if ex.W.durMs == nil {
 			ex.W.durMs = map[int]*Term{}
 		}
@@ -1162,9 +1222,35 @@ func init() {
 	intercepts["google.golang.org/grpc.NewServer"] = func(ex *Exec, fr *Frame, a []Value, s ssa.Instruction) Value {
 		return ex.opaquePtr("grpcserver", nil)
 	}
+	intercepts["google.golang.org/grpc.UnaryInterceptor"] = func(ex *Exec, fr *Frame, a []Value, s ssa.Instruction) Value {
+		return &IfaceV{typ: ex.P.errorStringType(), v: &OpaqueV{kind: "grpc.ServerOption"}}
+	}
 	intercepts["(*google.golang.org/grpc.Server).GracefulStop"] = rec("grpc.GracefulStop", nil)
 	intercepts["(*google.golang.org/grpc.Server).Stop"] = rec("grpc.Stop", nil)
-	intercepts["(*google.golang.org/grpc.Server).RegisterService"] = rec("grpc.RegisterService", nil)
+	intercepts["(*google.golang.org/grpc.Server).RegisterService"] = func(ex *Exec, fr *Frame, a []Value, s ssa.Instruction) Value {
+		name := "?"
+		if call, ok := s.(*ssa.Call); ok {
+			var dt types.Type
+			if call.Call.IsInvoke() && len(call.Call.Args) > 0 {
+				dt = call.Call.Args[0].Type()
+			} else if len(call.Call.Args) > 1 {
+				dt = call.Call.Args[1].Type()
+			}
+			if pt, ok := dt.Underlying().(*types.Pointer); ok {
+				if t, ok := ex.fget(a[1], pt.Elem(), "ServiceName").(*Term); ok {
+					if cs, ok := t.StrVal(); ok {
+						name = cs
+					}
+				}
+			}
+		}
+		ex.W.lifecycle = append(ex.W.lifecycle, "grpc.RegisterService:"+name)
+		ex.W.grpcImpls = append(ex.W.grpcImpls, a[2])
+		return nil
+	}
+	vx("GrpcRegisteredImpl", func(ex *Exec, fr *Frame, a []Value, s ssa.Instruction) Value {
+		return ex.W.grpcImpls[ex.concreteInt(a[0], "index")]
+	})
 	intercepts["(*net/http.Server).Shutdown"] = rec("http.Shutdown", func(ex *Exec) Value { return nilErr() })
 	intercepts["(*net/http.Server).Close"] = rec("http.Close", func(ex *Exec) Value { return nilErr() })
 	vx("Lifecycle", func(ex *Exec, fr *Frame, a []Value, s ssa.Instruction) Value {
@@ -1325,4 +1411,39 @@ func init() {
 		c.vs = append([]Value{}, mv.m.vs...)
 		return &IfaceV{typ: iv.typ, v: &MapV{m: &c}}
 	}
+}
+
+func init() {
+	// sort.SliceStable / sort.Slice(x, less): insertion sort over the (concrete-length, at most 6 elements) slice,
+	// every comparison made by the real less function
+	srt := func(ex *Exec, fr *Frame, a []Value, s ssa.Instruction) Value {
+		iv, ok := a[0].(*IfaceV)
+		if !ok || iv.typ == nil {
+			return nil
+		}
+		sl, ok := iv.v.(*SliceV)
+		if !ok {
+			panic(ex.unsupported("sort.Slice on %s", describe(iv.v)))
+		}
+		if sl.len <= 1 {
+			return nil
+		}
+		if sl.len > 6 {
+			panic(ex.unsupported("sort.Slice over more than 6 elements"))
+		}
+		ex.H.noteBound("sort.Slice/SliceStable: slices of at most 6 elements")
+		es := sl.arr.v.(*ArrayV).es
+		for i := 1; i < sl.len; i++ {
+			for j := i; j > 0; j-- {
+				r := ex.callValue(fr, a[1], []Value{ex.tt.BV(uint64(j), 64), ex.tt.BV(uint64(j-1), 64)}, s)
+				if !ex.branch(r.(*Term), "sort-less") {
+					break
+				}
+				es[sl.off+j], es[sl.off+j-1] = es[sl.off+j-1], es[sl.off+j]
+			}
+		}
+		return nil
+	}
+	intercepts["sort.SliceStable"] = srt
+	intercepts["sort.Slice"] = srt
 }
